@@ -41,81 +41,215 @@ def run(ctx):
         "value. Not decided: byte-for-byte equality of the two encoders and conformance of the emitted frame for all payloads.")
 
 
+def _buffer_writers(F, root):
+    """functions reachable from `root` (crate-local call graph) that write to a util::Buffer, directly or through a callee"""
+    direct = {}
+    calls = {}
+    for b in F.bodies.values():
+        cfg = CFG(b)
+        w = []
+        cs = []
+        for bb, t in cfg.calls():
+            c = t.get("callee") or {}
+            if c.get("trait") == "util::Buffer" and c.get("method") in ("push", "extend_from_slice"):
+                w.append((bb, t))
+            r = (c.get("resolved") or c).get("def")
+            if r in F.bodies:
+                cs.append((bb, t, r))
+        direct[b["def"]] = w
+        calls[b["def"]] = cs
+    writers = {d for d, w in direct.items() if w}
+    changed = True
+    while changed:
+        changed = False
+        for d, cs in calls.items():
+            if d not in writers and any(r in writers for _bb, _t, r in cs):
+                writers.add(d)
+                changed = True
+    reach = set()
+    todo = [root]
+    while todo:
+        d = todo.pop()
+        if d in reach:
+            continue
+        reach.add(d)
+        todo.extend(r for _bb, _t, r in calls.get(d, ()) if r in writers)
+    return {d: (direct[d], [(bb, t, r) for bb, t, r in calls[d] if r in writers]) for d in reach if d in writers or d == root}
+
+
 def check_encode(ctx, F, A):
+    from ..vra.cong import congruent0
     ip = A.ip
     b = F.one("transport::encode::encode")
     where = (b["span"]["file"], b["span"]["line"], b["def"])
-    cfg = CFG(b)
-    writes = [(bb, t) for bb, t in cfg.calls() if (t.get("callee") or {}).get("trait") == "util::Buffer"
-              and t["callee"].get("method") in ("push", "extend_from_slice")]
-    ctx.count("R-C07-OOM", len(writes))
-    if len(writes) < 6:
-        ctx.violation("BELOW-FLOOR", "R-C07-OOM", where, "expected 6 buffer writes in encode(), found %d" % len(writes))
-    # dominance: writes outside the loop dominate the Ok return; writes inside the loop lie on every cycle
-    loops = cfg.loops()
-    ok_ret = None
-    for bb in cfg.reach:
-        for st in b["blocks"][bb]["stmts"]:
-            if st["k"] == "assign" and st["place"]["local"] == 0 and st["rv"]["k"] == "aggregate" and st["rv"].get("variant_name") == "Ok":
-                ok_ret = bb
-    if ok_ret is None:
-        raise AnchorMissing("Ok return of encode()")
-    for bb, t in writes:
-        inl = [h for h, body in loops.items() if bb in body]
-        line = b["blocks"][bb]["tspan"]["line"]
-        if not inl:
-            ok = cfg.dominates(bb, ok_ret)
-            msg = "a buffer write outside the loop does not dominate the Ok return (it can be skipped)"
-        else:
-            h = inl[0]
-            # conditional escape write is allowed to be skipped only under its guard; the unconditional push must lie on every cycle
-            if t["callee"]["method"] == "push":
-                ok = not any(h in cfg.reachable_from(s, avoid={bb}) for s in cfg.succ[h] if s in loops[h] and s != bb)
+    # ---- no write can be skipped on a success path: in encode() and every helper it writes through, a write (or a call of a
+    # writing helper) outside loops dominates every Ok return of that function; inside a loop a push lies on every cycle
+    wr = _buffer_writers(F, b["def"])
+    n_writes = sum(len(w) for w, _c in wr.values())
+    ctx.count("R-C07-OOM", n_writes)
+    if n_writes < 6:
+        ctx.violation("BELOW-FLOOR", "R-C07-OOM", where, "expected 6 buffer writes in encode() and its helpers, found %d" % n_writes)
+    for d, (w, cs) in sorted(wr.items()):
+        fb = F.bodies[d]
+        cfg = CFG(fb)
+        loops = cfg.loops()
+        ok_rets = []
+        for bb in cfg.reach:
+            for st_ in fb["blocks"][bb]["stmts"]:
+                if st_["k"] == "assign" and st_["place"]["local"] == 0 and not st_["place"]["proj"] and st_["rv"]["k"] == "aggregate" \
+                        and st_["rv"].get("variant_name") == "Ok":
+                    ok_rets.append(bb)
+        rets = [bb for bb in cfg.reach if fb["blocks"][bb]["term"]["k"] == "return"]
+        for bb, t in w + [(bb, t) for bb, t, _r in cs]:
+            inl = [h for h, body in loops.items() if bb in body]
+            line = fb["blocks"][bb]["tspan"]["line"]
+            meth = (t.get("callee") or {}).get("method") or "call"
+            if not inl:
+                # the write's own result may itself be the function result (tail expression): then it trivially is not skipped
+                targets = ok_rets if ok_rets else []
+                ok = all(cfg.dominates(bb, r) for r in targets)
+                msg = "a buffer write outside the loop does not dominate the Ok return (it can be skipped)"
+            elif meth == "push":
+                h = inl[0]
+                ok = not any(h in cfg.reachable_from(s_, avoid={bb}) for s_ in cfg.succ[h] if s_ in loops[h] and s_ != bb)
                 msg = "the per-byte push does not lie on every loop cycle"
             else:
-                ok = True
-                msg = ""
-        ctx.oblig(ok)
-        if not ok:
-            ctx.violation("R-C07-OOM", "dominance|line-kind=%s" % t["callee"]["method"], (b["span"]["file"], line, b["def"]), msg)
-    # observations of constants / pad while analysing
+                ok, msg = True, ""
+            ctx.oblig(ok)
+            if not ok:
+                ctx.violation("R-C07-OOM", "dominance|%s|kind=%s" % (d, meth), (fb["span"]["file"], line, d), msg)
+    # ---- ghost-instrumented abstract run of encode() (helpers are analysed inline beneath it)
+    G_RUN, G_BAL, G_PEND = ("G", "c07-run"), ("G", "c07-bal"), ("G", "c07-pend")
     obs = []
 
+    def geti(st, key):
+        v = st.mem.get(key)
+        return v.lin if isinstance(v, VInt) else None
+
+    def resolve(st):
+        """account the last pushed byte in the run counter once the path determines whether it is 0x1b"""
+        pend = geti(st, G_PEND)
+        if pend is None or st.const_of(pend) == -1:
+            return True
+        sg = pend.single()
+        vals = st.values(sg[0]) if sg and sg[1] == 1 and pend.c == 0 else (frozenset([pend.c]) if pend.is_const() else None)
+        run = geti(st, G_RUN)
+        if vals is not None and vals == frozenset([0x1b]):
+            st.mem[G_RUN] = VInt(run + 1, 64, False)
+        elif vals is not None and 0x1b not in vals and -1 not in vals:
+            st.mem[G_RUN] = cint(0, 64, False)
+        else:
+            return False
+        st.mem[G_PEND] = cint(-1, 64, True)
+        return True
+
+    def force(st):
+        if not resolve(st):
+            st.mem[G_PEND] = cint(-1, 64, True)
+            st.ghost["c07-unresolved"] = 1
+            st.mem[G_RUN] = VInt(Lin.sym(st.fresh(0, None, "c07 unresolved run")), 64, False)
+
+    def on_block(ip_, frame, bb, st):
+        if G_RUN in st.mem:
+            resolve(st)
+
+    def buf_len(st, ref):
+        if isinstance(ref, VRef):
+            v = st.ghost.get(("deref", ref.root, ref.steps))
+            if isinstance(v, VSlice):
+                return v
+        return None
+
     def on_call(ip_, frame, bb, t, st, callee, args):
-        if frame.body is not b:
+        if G_RUN not in st.mem:
             return
+        line = frame.body["blocks"][bb]["tspan"]["line"]
         if callee.get("trait") == "util::Buffer" and callee.get("method") in ("push", "extend_from_slice"):
-            rec = {"method": callee["method"], "line": frame.body["blocks"][bb]["tspan"]["line"], "bb": bb}
+            rec = {"method": callee["method"], "line": line, "fn": frame.body["def"]}
             if callee["method"] == "extend_from_slice" and isinstance(args[1], VSlice):
-                rec["consts"] = slice_consts(ip_, st, args[1])
+                force(st)
+                rec["consts"] = tuple(slice_consts(ip_, st, args[1]) or ())
                 rec["n"] = args[1].n
-                rec["st"] = st.copy()
+                rec["run"] = st.const_of(geti(st, G_RUN))
+                if rec["run"] is None and rec["consts"] == tuple(ESC) and __import__("os").environ.get("C07DBG"):
+                    print("DBG run", line, bb, [(d["name"], d["place"]["local"]) for d in frame.body["debug"]], geti(st, G_RUN), st.describe(geti(st, G_RUN)), [repr(f) for f in st.facts][:20], {k: v for k, v in st.mem.items() if isinstance(v, VInt)})
+                cur = buf_len(st, args[0])
+                rec["len"] = cur.n if cur is not None else None
+                rec["cur"] = (cur.root, cur.steps, cur.start, cur.n) if cur is not None else None
+                st.mem[G_RUN] = cint(0, 64, False)
+                if "c07-first" not in st.ghost:
+                    st.ghost["c07-first"] = rec["consts"]
+                key = tuple((k, rec[k]) for k in ("consts", "n", "len", "cur", "line"))
+                st.ghost["c07-tail"] = (st.ghost.get("c07-tail", ()) + (key,))[-3:]
+                obs.append(dict(rec, st=st.copy()))
             else:
-                rec["val"] = args[1]
-            n1 = [d["place"]["local"] for d in frame.body["debug"] if d["name"] == "num_1b" and not d["place"]["proj"]]
-            for l in n1:
-                v = st.mem.get(("L", frame.fid, l))
+                force(st)
+                v = args[1]
                 if isinstance(v, VInt):
-                    rec["num_1b"] = st.const_of(v.lin)
-            obs.append(rec)
+                    st.mem[G_PEND] = VInt(v.lin, 64, True)
+                    last = st.ghost.get("c07-last")
+                    bal = geti(st, G_BAL)
+                    if last is not None and st.prove_eq0(last - v.lin):
+                        st.mem[G_BAL] = VInt(bal - 1, 64, True)
+                    else:
+                        st.ghost["c07-foreign-push"] = 1
+                if "c07-first" not in st.ghost:
+                    st.ghost["c07-first"] = ("push",)
+                st.ghost.pop("c07-tail", None)
+                obs.append(rec)
         if callee.get("trait") == "std::iter::Iterator" and callee.get("method") == "next":
-            n1 = [d["place"]["local"] for d in frame.body["debug"] if d["name"] == "num_1b" and not d["place"]["proj"]]
-            for l in n1:
-                v = st.mem.get(("L", frame.fid, l))
-                if isinstance(v, VInt):
-                    obs.append({"method": "next", "num_1b": st.interval(v.lin), "line": frame.body["blocks"][bb]["tspan"]["line"]})
+            force(st)
+            obs.append({"method": "next", "run": st.interval(geti(st, G_RUN)), "bal": st.interval(geti(st, G_BAL)), "line": line,
+                        "unresolved": st.ghost.get("c07-unresolved", False)})
         r = callee.get("resolved") or callee
-        if r["def"].endswith("::checksum"):
-            obs.append({"method": "checksum", "slice": args[1], "st": st.copy(), "line": frame.body["blocks"][bb]["tspan"]["line"]})
+        if r["def"].endswith("::checksum") and isinstance(args[1], VSlice):
+            cur = None
+            for k, v in st.ghost.items():
+                if isinstance(k, tuple) and k and k[0] == "deref" and isinstance(v, VSlice) and v.root == args[1].root:
+                    cur = v
+            whole = cur is not None and st.prove_eq0(args[1].start - cur.start) and st.prove_eq0(args[1].n - cur.n)
+            st.ghost["c07-cks"] = (args[1].root, args[1].steps, args[1].start, args[1].n, whole)
+            obs.append({"method": "checksum", "whole": whole, "line": line})
+
+    def on_call_result(ip_, frame, bb, t, callee, args, outs):
+        if callee.get("trait") == "std::iter::Iterator" and callee.get("method") == "next":
+            for s2, val in outs:
+                if G_RUN not in s2.mem or not isinstance(val, VEnum):
+                    continue
+                # Option discriminant: 1 = Some
+                s2.mem[G_BAL] = VInt(geti(s2, G_BAL) + val.disc, 64, True)
+                it = val.pay.get(1, (None,))[0]
+                if isinstance(it, VInt):
+                    s2.ghost["c07-last"] = it.lin
+        if callee.get("trait") == "std::borrow::Borrow" and callee.get("method") == "borrow":
+            for s2, val in outs:
+                if G_RUN in s2.mem and isinstance(val, VRef):
+                    v = ip_.read_raw(s2, val.root, val.steps)
+                    if isinstance(v, VInt):
+                        s2.ghost["c07-last"] = v.lin
+
+    def on_assign(ip_, frame, bb, stmt, st, val):
+        # the fetched item may be a Borrow<u8>: remember the byte it yields
+        pass
+
     ip.on_call.append(on_call)
+    ip.on_call_result.append(on_call_result)
+    ip.on_block.append(on_block)
     old = ip.join_threshold
     ip.join_threshold = 10 ** 9
+    st0 = ip.new_state()
+    st0.mem[G_RUN] = cint(0, 64, False)
+    st0.mem[G_BAL] = cint(0, 64, True)
+    st0.mem[G_PEND] = cint(-1, 64, True)
     try:
-        outs = A.run_fn(b)
+        outs = A.run_fn(b, st0=st0)
     finally:
         ip.join_threshold = old
         ip.on_call.remove(on_call)
+        ip.on_call_result.remove(on_call_result)
+        ip.on_block.remove(on_block)
     n_ok = n_err = 0
+    oks = []
     for (s2, rv, args) in outs:
         for s3, var, pay in split_enum(ip, s2, rv, "encode result"):
             ctx.count("R-C07-OOM")
@@ -123,88 +257,95 @@ def check_encode(ctx, F, A):
             ok = (var == 1) == failed
             n_ok += var == 0
             n_err += var == 1
+            if var == 0:
+                oks.append(s3)
             ctx.oblig(ok)
             if not ok:
                 ctx.violation("R-C07-OOM", "outcome|%s|failed=%s" % ("Err" if var else "Ok", failed), where,
                               "encode() returns %s on a path where %s" % ("Err" if var else "Ok", "a buffer write failed (the result was dropped)" if failed else "no write failed"))
     if not (n_ok and n_err):
         ctx.violation("BELOW-FLOOR", "R-C07-OOM|outcomes", where, "encode() must have Ok and Err outcomes")
-    # ---- constants
     ext = [o for o in obs if o["method"] == "extend_from_slice"]
     ctx.sample({"encode_buffer_writes_observed": [{"line": o["line"], "method": o["method"],
                                                   "bytes": [("0x%02x" % c if isinstance(c, int) else "sym") for c in (o.get("consts") or [])][:8]}
                                                  for o in obs if o["method"] in ("extend_from_slice", "push")][:8]})
-    consts = [tuple(o["consts"]) if o.get("consts") else None for o in ext]
+    # ---- constants: first write, escape insertion, trailer (per successful path)
     ctx.count("R-C07-CONST", 4)
-    def have(c):
-        return any(x == tuple(c) for x in consts)
-    ok = have(START_SEQ)
+    ok = bool(oks) and all(s3.ghost.get("c07-first") == tuple(START_SEQ) for s3 in oks)
     ctx.oblig(ok)
     if not ok:
-        ctx.violation("R-C07-CONST", "encode|start", where, "encode() does not write the start sequence 1b1b1b1b01010101 (writes %r)" % (consts[:3],))
+        ctx.violation("R-C07-CONST", "encode|start", where, "the first write of encode() must be the start sequence 1b1b1b1b01010101 (first writes %r)"
+                      % (sorted({repr(s3.ghost.get("c07-first")) for s3 in oks})[:3],))
     esc = [o for o in ext if o.get("consts") and tuple(o["consts"]) == tuple(ESC)]
-    ok = bool(esc) and all(o.get("num_1b") == 4 for o in esc)
+    ok = bool(esc) and all(o.get("run") == 4 for o in esc)
     ctx.oblig(ok)
     if not ok:
         ctx.violation("R-C07-CONST", "encode|escape", where, "the escape sequence 1b1b1b1b must be inserted exactly after the 4th consecutive 0x1b "
-                      "(observed counters %r)" % ([o.get("num_1b") for o in esc],))
-    # the run counter is back below 4 whenever the next payload byte is fetched (so every 4th 1b of a long run is escaped)
-    ctx.rule("R-C07-ESC", "at every fetch of the next payload byte the 1b-run counter lies in 0..3: it is reset after each inserted escape")
+                      "written (observed run lengths %r)" % ([o.get("run") for o in esc],))
+    ctx.rule("R-C07-ESC", "at every fetch of the next payload byte the number of consecutive 0x1b written since the last escape lies in 0..3 "
+                          "(ghost counter), and every fetched byte has been written exactly once")
     nx = [o for o in obs if o["method"] == "next"]
     ctx.count("R-C07-ESC", len(nx))
-    ok = bool(nx) and all(o["num_1b"][0] is not None and o["num_1b"][0] >= 0 and o["num_1b"][1] is not None and o["num_1b"][1] <= 3 for o in nx)
+    ok = bool(nx) and all(not o["unresolved"] and o["run"][0] is not None and o["run"][0] >= 0 and o["run"][1] is not None and o["run"][1] <= 3 for o in nx)
     ctx.oblig(ok)
     if not ok:
-        ctx.violation("R-C07-ESC", "encode|counter", where, "the 1b-run counter is not confined to 0..3 between payload bytes (ranges %r): after "
-                      "an inserted escape the count must restart, else longer runs are not escaped" % ([o["num_1b"] for o in nx][:3],))
-    ends = [o for o in ext if o.get("consts") and len(o["consts"]) == 6 and list(o["consts"][:5]) == END5]
-    ok = bool(ends)
-    ctx.oblig(ok)
-    if not ok:
-        ctx.violation("R-C07-CONST", "encode|end", where, "encode() does not write the end sequence 1b1b1b1b1a<pad>")
-    crcw = [o for o in ext if o.get("consts") and len(o["consts"]) == 2 and all(isinstance(x, tuple) for x in o["consts"])]
-    cks = [o for o in obs if o["method"] == "checksum"]
-    ok = False
-    if crcw and cks:
-        o = crcw[-1]
-        syms = [x[1].single()[0] for x in o["consts"] if x[1] is not None and x[1].single()]
-        defs = [ip.tab.defn(s) for s in syms]
-        ck = cks[-1]
-        whole = ck["st"].prove_eq0(ck["slice"].start)
-        ok = len(defs) == 2 and all(d and d[0] == "le_byte" for d in defs) and [d[2] for d in defs] == [0, 1] and whole \
-            and isinstance(ip.tab.origin(defs[0][1].single()[0]), tuple) and ip.tab.origin(defs[0][1].single()[0])[0] == "crc_checksum"
-    ctx.oblig(ok)
-    if not ok:
-        ctx.violation("R-C07-CONST", "encode|crc", where, "the last two bytes must be to_le_bytes() of CRC_X25.checksum over everything written before")
-    # ---- pad
+        ctx.violation("R-C07-ESC", "encode|counter", where, "the run of consecutive 0x1b bytes written is not confined to 0..3 when the next payload "
+                      "byte is fetched (ranges %r): after an inserted escape the count must restart, else longer runs are not escaped"
+                      % ([o["run"] for o in nx][:3],))
+    other = [o for o in ext if o not in esc and not (o.get("consts") and (tuple(o["consts"]) == tuple(START_SEQ)))]
+    # trailer
     ctx.count("R-C07-PAD", 3)
-    okp = False
-    why = "end sequence not found"
-    if ends:
-        o = ends[-1]
-        st = o["st"]
-        pad = o["consts"][5][1] if isinstance(o["consts"][5], tuple) else None
-        zeros = [z for z in ext if z["bb"] != o["bb"] and z.get("consts") is None or (z.get("consts") is not None and z["bb"] != o["bb"]
-                 and all(c == 0 for c in z["consts"]) and z not in esc)]
-        zw = [z for z in ext if z["line"] < o["line"] and z not in esc and not (z.get("consts") and tuple(z["consts"]) == tuple(START_SEQ))]
-        if pad is not None:
-            lo, hi = st.interval(pad)
-            in_range = lo is not None and lo >= 0 and hi is not None and hi <= 3
-            # congruence: pad = (4 - len % 4) % 4 with len = current buffer length
-            d = ip.tab.defn(pad.single()[0]) if pad.single() else None
-            cong = False
-            if d and d[0] in ("rem",) and d[2] == 4:
-                inner = d[1]          # 4 - m
-                for s_, a_ in inner.t:
-                    dm = ip.tab.defn(s_)
-                    if a_ == -1 and inner.c == 4 and dm and dm[0] == "rem" and dm[2] == 4:
-                        cong = True
-            nz = any(z["st"].prove_eq0(z["n"] - pad) for z in zw if "n" in z and z.get("st") is not None)
-            okp = in_range and cong and nz
-            why = "range %s, congruence %s, zero-count %s" % (in_range, cong, nz)
+    okc = oke = okp = bool(oks)
+    why = "no successful path"
+    for s3 in oks:
+        tail = s3.ghost.get("c07-tail", ())
+        if len(tail) != 3:
+            okc = oke = okp = False
+            why = "the last three writes of a successful path are not extend_from_slice calls"
+            break
+        Z, E, C = [dict(x) for x in tail]
+        e = E["consts"]
+        if not (len(e) == 6 and list(e[:5]) == END5):
+            oke = False
+            continue
+        pad = e[5][1] if isinstance(e[5], tuple) else Lin.const(e[5])
+        lo, hi = s3.interval(pad)
+        in_range = lo is not None and lo >= 0 and hi is not None and hi <= 3
+        zeros = all(c == 0 for c in Z["consts"]) or (len(Z["consts"]) == 0)
+        nz = s3.prove_eq0(Z["n"] - pad)
+        cong = Z["len"] is not None and congruent0(ip, s3, Z["len"] + pad, 4)
+        if not (in_range and zeros and nz and cong):
+            okp = False
+            why = "range %s, zero bytes %s, zero count == pad %s, (length before padding + pad) %% 4 == 0 %s" % (in_range, zeros, nz, cong)
+        c = C["consts"]
+        syms = [x[1].single()[0] for x in c if isinstance(x, tuple) and x[1] is not None and x[1].single()]
+        defs = [ip.tab.defn(s_) for s_ in syms]
+        cks = s3.ghost.get("c07-cks")
+        good = len(c) == 2 and len(defs) == 2 and all(d and d[0] == "le_byte" for d in defs) and [d[2] for d in defs] == [0, 1] and cks is not None and cks[4]
+        if good:
+            org = ip.tab.origin(defs[0][1].single()[0]) if defs[0][1].single() else None
+            good = isinstance(org, tuple) and org[0] == "crc_checksum" and defs[0][1] == defs[1][1] and C["cur"] is not None \
+                and org[1] == C["cur"][0] and s3.prove_eq0(org[4] - C["cur"][3])
+        if not good:
+            okc = False
+    ctx.oblig(oke)
+    if not oke:
+        ctx.violation("R-C07-CONST", "encode|end", where, "encode() does not write the end sequence 1b1b1b1b1a<pad> as its second-to-last write")
+    ctx.oblig(okc)
+    if not okc:
+        ctx.violation("R-C07-CONST", "encode|crc", where, "the last two bytes must be to_le_bytes() of CRC_X25.checksum over everything written before")
     ctx.oblig(okp)
     if not okp:
-        ctx.violation("R-C07-PAD", "encode", where, "encode(): pad count must be (4 - len %% 4) %% 4 in 0..3, be written after 0x1a and equal the number of zero bytes written (%s)" % why)
+        ctx.violation("R-C07-PAD", "encode", where, "encode(): the pad count must lie in 0..3, make the length a multiple of 4, be written after 0x1a "
+                      "and equal the number of zero bytes written just before the end sequence (%s)" % why)
+    # every fetched byte is written exactly once
+    ctx.count("R-C07-ESC")
+    okb = bool(nx) and all(o["bal"] == (0, 0) for o in nx) and all(s3.const_of(geti(s3, G_BAL)) == 0 for s3 in oks) \
+        and not any(s3.ghost.get("c07-foreign-push") for s3 in oks)
+    ctx.oblig(okb)
+    if not okb:
+        ctx.violation("R-C07-ESC", "encode|balance", where, "every byte fetched from the input must be written to the buffer exactly once before the "
+                      "next one is fetched (fetched - written at fetch: %r)" % ([o["bal"] for o in nx][:3],))
 
 
 def enc_state(ip, F, variant, n):
@@ -228,6 +369,7 @@ def enc_state(ip, F, variant, n):
 
 
 def check_iter(ctx, F, A):
+    from ..vra.cong import congruent0
     ip = A.ip
     nb = [b for b in F.bodies.values() if b.get("impl_trait") == "std::iter::Iterator" and b.get("name") == "next"
           and (b.get("impl_self_ty") or {}).get("def") == ENC]
@@ -269,6 +411,23 @@ def check_iter(ctx, F, A):
                             "iter": s3.ghost.get("c07-iter", 0), "obj": obj, "final": s3.ghost.get("c07-final", False),
                             "obj0": st.mem.get(root)})
         return res
+    stv_all = {v["name"]: v["idx"] for v in F.adts[ENCST]["variants"]}
+
+    def pad_of(st, obj):
+        """the pad count an encoder object stands for = the byte it emits in state End(5); (state, Lin) or None"""
+        elems = list(obj.elems)
+        elems[i_state] = VEnum(ENCST, Lin.const(stv_all["End"]), {stv_all["End"]: (cint(5, 8, True),)})
+        root = ip.new_oid("self-pad")
+        s0 = st.copy()
+        s0.mem[root] = VAgg("struct", ENC, elems)
+        outs = []
+        for (s2, rv, _a) in A.run_fn(nb, st0=s0, first_arg=VRef(root, (), True)):
+            for s3, ov, pay in split_enum(ip, s2, rv, "next"):
+                outs.append((s3, pay[0] if ov == 1 else None))
+        if len(outs) != 1 or not isinstance(outs[0][1], VInt):
+            return None
+        return outs[0][0], outs[0][1].lin
+
     try:
         def emitted(r):
             o = r["out"]
@@ -292,6 +451,7 @@ def check_iter(ctx, F, A):
             rs = step(variant, n)
             base = n if variant == "LookingForEscape" else 0
             good = True
+            good_pad = True
             saw_data = False
             for r in rs:
                 e = emitted(r)
@@ -300,6 +460,11 @@ def check_iter(ctx, F, A):
                     # data byte: emitted unchanged, fed to the crc once, counter = base+1 for 0x1b else 0
                     if r["iter"] != 1 or len(r["feed"]) != 1 or r["feed"][0] != (("sym", e.lin),):
                         good = False
+                    # the pad count the object stands for drops by one (mod 4) per data byte
+                    p0 = pad_of(r["st"], r["obj0"])
+                    p1 = pad_of(p0[0], r["obj"]) if p0 else None
+                    if not (p0 and p1 and congruent0(ip, p1[0], p1[1] + 1 - p0[1], 4)):
+                        good_pad = False
                     vals = r["st"].values(e.lin.single()[0]) if e.lin.single() else None
                     nn = r["state"][1]
                     if nn is None:
@@ -318,6 +483,11 @@ def check_iter(ctx, F, A):
                 ctx.violation("R-C07-ITER", "%s(%d)|data" % (variant, n), where,
                               "%s(%d): a data byte must be emitted unchanged, fed to the CRC exactly once, and the 1b-run counter must become "
                               "%d for 0x1b and 0 otherwise (%r)" % (variant, n, base + 1, [(emitted(r), r["state"], r["feed"]) for r in rs][:4]))
+            ctx.count("R-C07-PAD")
+            ctx.oblig(good_pad)
+            if not good_pad:
+                ctx.violation("R-C07-PAD", "iter|bump|%s(%d)" % (variant, n), where, "%s(%d): each data byte must lower the pad count (the byte emitted "
+                              "in state End(5)) by one modulo 4" % (variant, n))
         # LookingForEscape(4): exactly four escape bytes
         rs = step("LookingForEscape", 4)
         ctx.count("R-C07-ITER")
@@ -337,19 +507,27 @@ def check_iter(ctx, F, A):
         rs = [r for r in step("LookingForEscape", 0) if r["state"][0] == "End" or (r["state"][0] is not None and r["state"][0] == "End")]
         ctx.count("R-C07-PAD")
         okp = False
+        okp_all = True
+        n_end = 0
         for r in rs:
             fd = r["feed"]
             last = fd[-1] if fd else ()
             pad = last[5][1] if len(last) == 6 and isinstance(last[5], tuple) else (last[5] if len(last) == 6 else None)
             zeros = fd[:-1]
             if len(last) == 6 and list(last[:5]) == END5 and all(z == (0,) for z in zeros):
-                if isinstance(pad, int):
-                    okp = okp or len(zeros) == pad
-                elif pad is not None:
-                    okp = okp or r["st"].const_of(pad) == len(zeros)
+                padv = pad if isinstance(pad, int) else (r["st"].const_of(pad) if pad is not None else None)
+                p1 = pad_of(r["st"], r["obj"])
+                e = emitted(r)
+                this = padv == len(zeros) and p1 is not None and p1[0].const_of(p1[1]) == padv and r["state"] == ("End", 1 - padv) \
+                    and e == (0 if padv > 0 else 0x1b)
+                n_end += 1
+                okp_all = okp_all and this
+                okp = okp or this
+        okp = okp and okp_all and n_end == len(rs)
         ctx.oblig(okp)
         if not okp:
-            ctx.violation("R-C07-PAD", "iter|end-feed", where, "at end of data the encoder must feed `pad` zero bytes and then 1b1b1b1b1a<pad> to the CRC (%r)" % ([r["feed"] for r in rs][:3],))
+            ctx.violation("R-C07-PAD", "iter|end-feed", where, "at end of data the encoder must feed `pad` zero bytes and then 1b1b1b1b1a<pad> to the CRC, "
+                          "with pad the count it later emits, and continue with End(-pad) (%r)" % ([(r["feed"], r["state"]) for r in rs][:3],))
         # End(n)
         want = {-3: 0, -2: 0, -1: 0, 0: 0x1b, 1: 0x1b, 2: 0x1b, 3: 0x1b, 4: 0x1a}
         for n in range(-3, 8):
@@ -361,12 +539,15 @@ def check_iter(ctx, F, A):
                 if n in want:
                     ok = e == want[n]
                 elif n == 5:
-                    d = ip.tab.defn(e.lin.single()[0]) if isinstance(e, VInt) and e.lin.single() else None
-                    lo, hi = rs[0]["st"].interval(e.lin) if isinstance(e, VInt) else (None, None)
-                    ok = d is not None and d[0] == "and" and d[2] == 3 and lo == 0 and hi == 3
+                    # the pad byte: in 0..3 for every object value (what it counts is fixed by the bump / end-of-data rules)
+                    lo, hi = rs[0]["st"].interval(e.lin) if isinstance(e, VInt) else ((e, e) if isinstance(e, int) else (None, None))
+                    ok = lo is not None and lo >= 0 and hi is not None and hi <= 3
                 else:
                     d = ip.tab.defn(e.lin.single()[0]) if isinstance(e, VInt) and e.lin.single() else None
                     ok = d is not None and d[0] == "le_byte" and d[2] == n - 6 and rs[0]["final"]
+            if ok:
+                # nothing but the state changes (so the pad count and the CRC stay what they were)
+                ok = all(x == y for j, (x, y) in enumerate(zip(rs[0]["obj"].elems, rs[0]["obj0"].elems)) if j != i_state)
             ctx.oblig(ok)
             if not ok:
                 ctx.violation("R-C07-ITER", "End(%d)" % n, where, "End(%d) emits the wrong byte or goes to the wrong state (%r)" %
@@ -399,10 +580,13 @@ def check_iter(ctx, F, A):
         obj = outs[0][1]
         sv = obj.elems[i_state]
         ok = outs[0][0].const_of(sv.disc) is not None and outs[0][0].const_of(list(sv.pay.values())[0][0].lin) == 0
+    if ok:
+        p = pad_of(outs[0][0], outs[0][1])
+        ok = p is not None and p[0].const_of(p[1]) == 0
     ctx.oblig(ok)
     if not ok:
         ctx.violation("R-C07-CONST", "iter|new", (new[0]["span"]["file"], new[0]["span"]["line"], new[0]["def"]),
-                      "Encoder::new must start in Init(0) with the CRC fed exactly the start sequence")
+                      "Encoder::new must start in Init(0) with the CRC fed exactly the start sequence and a pad count of 0")
 
 
 def check_crc_instance(ctx, F):
